@@ -225,7 +225,7 @@ def register(reg):
     @reg.contract
     class CreateConnection(Contract):
         key = POOL + ".create_connection"
-        props = ("C10", "C11")
+        props = ("C10", "C11", "C09", "C20")
         suspends = False
         result_kind = "ref:" + CI
 
@@ -275,6 +275,9 @@ def register(reg):
                 porigin = kw["proxy_origin"]
                 out.append(("proxied_connection_goes_to_the_proxy_urls_origin", ("C10", "C11"), z3.And(
                     F(c, porigin, "Origin.scheme") == pscheme, F(c, porigin, "Origin.host") == F(c, purl, "URL.host"))))
+                out.append(("proxied_connection_gets_pool_keepalive_expiry_and_backend", ("C09", "C10"), z3.And(
+                    e.z_bool(e.eq(st, e.coerce(st, kw.get("keepalive_expiry", NONE), "opt:real"), c.new(s, "Pool._keepalive_expiry"))),
+                    kw["network_backend"].t == F(c, s, "Pool._network_backend")) if "network_backend" in kw else False))
                 if kind in ("fwd", "tun"):
                     out.append(("proxy_headers_and_proxy_tls_context_passed", ("C11", "C10"), z3.And(
                         e.coerce(st, kw["proxy_headers"], "seq:hdr").t == F(c, proxy, "Proxy.headers"), tv(kw["proxy_ssl_context"]) == F(c, proxy, "Proxy.ssl_context"))))
@@ -504,7 +507,7 @@ def register(reg):
             ok = len(evs) == 1 and isinstance(conn, VRef)
             return [
                 ("closes_each_listed_connection", ("C06",), evs[0].data["conn"].t == conn.t if ok else False),
-                ("closing_is_shielded_from_cancellation", ("C05", "C06"), evs[0].data["shield"] > 0 if ok and c.eng.tree == "async" else bool(ok)),
+                ("closing_is_shielded_from_cancellation", ("C05", "C06", "C04"), evs[0].data["shield"] > 0 if ok and c.eng.tree == "async" else bool(ok)),
             ]
 
         def on_loop_break(self, c, ordinal):
@@ -516,7 +519,7 @@ def register(reg):
             return []
 
         def exc_checks(self, c, exc):
-            return [("closing_is_never_interrupted", ("C06", "C05"), False)]
+            return [("closing_is_never_interrupted", ("C06", "C05", "C04"), False)]
 
     @reg.contract
     class PoolClose(Contract):
@@ -549,7 +552,7 @@ def register(reg):
     @reg.contract
     class PoolHandle(Contract):
         key = POOL + ".handle_async_request"
-        props = ("C01", "C03", "C04", "C05", "C06", "C07", "C08", "C14", "C15", "C16")
+        props = ("C01", "C03", "C04", "C05", "C06", "C07", "C08", "C09", "C14", "C15", "C16")
         raises = CONN_RAISES[:] + [UP, PT, "Cancelled"]
         raises_props = ("C15",)
         max_paths = 40000
@@ -673,7 +676,7 @@ def register(reg):
             tail = c.since_cut({"list.remove", "call:" + ASSIGN, "call:" + CLOSECONNS, "except"})
             i = max([k for k, e in enumerate(tail) if e.name == "except"], default=-1)
             after = [e.name.split(":")[-1].rsplit(".", 1)[-1] if e.name.startswith("call:") else e.name for e in tail[i + 1:]]
-            out.append(("failed_request_is_dequeued_then_queue_reassigned_then_evictions_closed", ("C05", "C07", "C06", "C04"), after == ["list.remove", "_assign_requests_to_connections", "_close_connections"]))
+            out.append(("failed_request_is_dequeued_then_queue_reassigned_then_evictions_closed", ("C05", "C07", "C06", "C04", "C09"), after == ["list.remove", "_assign_requests_to_connections", "_close_connections"]))
             return out
 
     # ================================================================== PoolByteStream
